@@ -17,7 +17,7 @@ SCHEMA_VALID_EDGE = [
     "vmerge_continue_val", "grid_before", "checkbox_onoff", "ddlist_empty", "ddlist_markup",
     "no_r_namespace", "start_zero", "markers_in_link", "comment_in_heading",
     "adjacent_links_diff_anchor", "xml_comment_in_props", "nested_par_in_table", "num_dangling_abstract", "textbox_in_link",
-    "numbering_other_prefix",
+    "numbering_other_prefix", "bare_picture_part",
 ]
 
 SPEC = docsweep.Spec(
